@@ -11,6 +11,8 @@ CONSTANTS
   Dev_StaleScratch = FALSE
   Dev_MemoWriter = FALSE
   Dev_RollbackOnlyHeads = FALSE
+  Dev_CidByDigest = FALSE
+  Dev_KeepUnattached = FALSE
 INVARIANT AttachedOnlyIfAuthentic
 INVARIANT AttachedOnlyIfAuthorised
 INVARIANT StoredClosedAtRest
